@@ -198,6 +198,22 @@ func runProbes(c *Check, judge func(pr Probe) (ok bool, detail string, files map
 
 // bashProbeJudge judges a probe by running it through Transpile + bash.
 func bashProbeJudge(pr Probe) (bool, string, map[string]string) {
+	if pr.Target == "reject" || pr.Target == "accept" {
+		a, b, dir := transpileBoth(pr.Files["main.tsh"], pr.Files)
+		va, vb := verdictOf(a), verdictOf(b)
+		files := map[string]string{}
+		for n, s := range pr.Files {
+			files[n] = s
+		}
+		if va != pr.Target || vb != pr.Target {
+			d := ""
+			if a.Err != nil {
+				d = stripDir(a.Err.Error(), dir)
+			}
+			return false, fmt.Sprintf("expected %s, got bash=%s batch=%s %s", pr.Target, va, vb, d), files
+		}
+		return true, "", files
+	}
 	dir := newSandbox()
 	defer os.RemoveAll(dir)
 	files := map[string]string{}
